@@ -359,13 +359,13 @@ class ExprMixin:
         fy = self.to_fp(y, t)
         rm = z3.RNE()
         if op == "+":
-            return self.fp_result(z3.fpAdd(rm, fx, fy), t)
+            return self.fp_result(z3.fpAdd(rm, fx, fy), t, "add", [x, y])
         if op == "-":
-            return self.fp_result(z3.fpSub(rm, fx, fy), t)
+            return self.fp_result(z3.fpSub(rm, fx, fy), t, "sub", [x, y])
         if op == "*":
-            return self.fp_result(z3.fpMul(rm, fx, fy), t)
+            return self.fp_result(z3.fpMul(rm, fx, fy), t, "mul", [x, y])
         if op == "/":
-            return self.fp_result(z3.fpDiv(rm, fx, fy), t)
+            return self.fp_result(z3.fpDiv(rm, fx, fy), t, "div", [x, y])
         if op == "==":
             return z3.fpEQ(fx, fy)
         if op == "!=":
@@ -380,10 +380,14 @@ class ExprMixin:
             return z3.fpGEQ(fx, fy)
         raise Unsupported("float " + op)
 
-    def fp_result(self, f, t):
-        """FP term -> bit pattern. NaN results get an unconstrained NaN payload (hardware-defined)."""
+    def fp_result(self, f, t, op, operands):
+        """FP term -> bit pattern.  The result is a function application res_<op>(operand bits) constrained to be an
+        IEEE encoding of f: equal operands give equal result bits (the hardware is deterministic, also in the NaN
+        payload it produces), and the application survives substitution of its operands (loop summaries)."""
         w = t.bits()
-        r = self.fresh("fpr", z3.BitVecSort(w))
+        fn = z3.Function("fp_%s_%s_%d" % (op, "_".join(str(o.sort().size()) for o in operands), w),
+                         *([o.sort() for o in operands] + [z3.BitVecSort(w)]))
+        r = fn(*operands)
         self.facts.append(z3.fpBVToFP(r, self.fp_sort(t)) == f)
         return r
 
@@ -401,16 +405,16 @@ class ExprMixin:
             return z3.SignExt(tb - fb, v) if ft.signed() else z3.ZeroExt(tb - fb, v)
         if ft.is_int() and tt.is_float():
             f = z3.fpSignedToFP(z3.RNE(), v, self.fp_sort(tt)) if ft.signed() else z3.fpUnsignedToFP(z3.RNE(), v, self.fp_sort(tt))
-            return self.fp_result(f, tt)
+            return self.fp_result(f, tt, "i2f_s" if ft.signed() else "i2f_u", [v])
         if ft.is_float() and tt.is_float():
             if ft.bits() == tt.bits():
                 return v
             f = z3.fpFPToFP(z3.RNE(), self.to_fp(v, ft), self.fp_sort(tt))
-            return self.fp_result(f, tt)
+            return self.fp_result(f, tt, "f2f", [v])
         if ft.is_float() and tt.is_int():
             f = self.to_fp(v, ft)
             tb = tt.bits()
-            r = self.fresh("f2i", z3.BitVecSort(tb))
+            r = z3.Function("f2i_%s_%d_%d" % ("s" if tt.signed() else "u", ft.bits(), tb), v.sort(), z3.BitVecSort(tb))(v)
             conv = z3.fpToSBV(z3.RTZ(), f, z3.BitVecSort(tb)) if tt.signed() else z3.fpToUBV(z3.RTZ(), f, z3.BitVecSort(tb))
             lo, hi = self.int_range_fp(tt, ft)
             inrange = z3.And(z3.Not(z3.fpIsNaN(f)), z3.fpGT(f, lo), z3.fpLT(f, hi))
